@@ -21,6 +21,7 @@ var ContainerNames = []string{"TIFF", "JPEG", "PNG", "CR3", "HEIF"}
 // Embedded is a container file with the location of the payload part(s) it carries.
 type Embedded struct {
 	Kind  int
+	AVIF  bool // a HEIF container whose file type box says avif
 	Bytes []byte
 	Parts []Span // payload parts in order (one TIFF block; for CR3: CMT1, CMT2, CMT4 as present)
 	Map   []FieldSpan
@@ -109,7 +110,16 @@ func EmbedX(l, x *core.Lane, kind int, parts [][]byte, surround bool) *Embedded 
 			}
 		}
 	case CHEIF:
-		h := DrawHEIF(l, parts[0], surround)
+		var ho HEIFOpts
+		if x != nil {
+			ho.ItemFirst, ho.Mdat64 = x.Chance(1, 3), x.Chance(1, 3)
+			if x.Chance(1, 3) {
+				// (the box reader, which avif-branded files are routed through, resolves the Exif item
+				// only when iinf precedes iloc: that order is part of this variant)
+				ho.AVIFBrand, ho.IinfFirst, e.AVIF = true, true, true
+			}
+		}
+		h := DrawHEIFOpts(l, parts[0], surround, ho)
 		e.Bytes = h.Bytes
 		e.Map = h.Map
 		e.Parts = []Span{{"tiff", h.TIFFOff, h.TIFFOff + len(parts[0])}}
